@@ -789,9 +789,23 @@ func compareResult(ref *refResult, rows []*storage.Row, fields []*storage.Field,
 		lo, hi := window(len(cand))
 		want := cand[lo:hi]
 		if ref.multiset {
-			// order unspecified and a window applied: size only
+			// order unspecified and a window applied: the right number of rows, each of them a different row of
+			// the full result
 			if len(got) != len(want) {
 				return fmt.Sprintf("result has %d rows, reference window has %d", len(got), len(want))
+			}
+			used := make([]bool, len(cand))
+			for _, g := range got {
+				hit := false
+				for i, c := range cand {
+					if !used[i] && rowMatches(c, g) {
+						used[i], hit = true, true
+						break
+					}
+				}
+				if !hit {
+					return fmt.Sprintf("row %v is not in the reference result (or too often)\n got:  %s\n full result before OFFSET/LIMIT: %s (any order)", g, render(got), render(cand))
+				}
 			}
 			return ""
 		}
